@@ -1308,8 +1308,10 @@ def _e2e_batch(arg):
             raises(kind, errclasses[(PKINDS.index(kind) + seed) % len(errclasses)],
                    rnd.choice(['sensor %s failed' % kind, 'no answer: timeout']))
         for cls in errclasses:
-            for text in ('sensor failed', 'no answer: timeout (code 5)', 'device said RangeError: 5 too big',
-                         'failed with %s: inner reason' % cls.__name__, 'ValueError: invalid literal'):
+            texts = ['sensor failed', 'no answer: timeout (code 5)', 'failed with %s: inner reason' % cls.__name__,
+                     'ValueError: invalid literal']
+            # the name of another error class in the middle of the text: every batch; the others in rotation
+            for text in ('device said RangeError: 5 too big', texts[seed % 4]):
                 raises('int', cls, text, errclass=cls.__name__)
         # -- command without argument
         for path in ('direct', 'proxy'):
@@ -1499,7 +1501,7 @@ def run(chk):
         chk.violation({'module': 'E2E', 'site': 'proxy factory', 'clause': 'proxy node can be configured'},
                       {'errors': n0['proxy_factory_errors'],
                        'config': "Mod('px', 'frappy.proxy.Proxy', 'proxy', remote_class=<class>, module='drv', uri='tcp://...')"})
-    verdicts, st, tr = validate_traces('Trace_ClientCache', traces + e2e_traces, 'Trace_ClientCache.cfg', timeout=1100, chunk=2500)
+    verdicts, st, tr = validate_traces('Trace_ClientCache', traces + e2e_traces, 'Trace_ClientCache.cfg', timeout=1100, chunk=4000)
     chk.states += st
     chk.transitions += tr
     lap('trace_validation')
